@@ -160,12 +160,17 @@ def field_cases(ctx):
     shapes = [s for s in itertools.product((1, 2, 3, 4), repeat=3)]
     k = 0
     if ctx.tier == "thorough":
+        import os
+
+        stride = max(1, round(1.0 / float(os.environ.get("VERIF_SCALE", "1"))))  # development aid only (as in the driver)
         for sym in SYMS:
             for ft in ("E", "H"):
                 for shp in shapes:
                     if _thin(sym, shp):
                         continue
                     k += 1
+                    if k % stride:
+                        continue
                     yield {"sym": list(sym), "ft": ft, "shape": list(shp), "seed": 7919 * k + ctx.seed,
                            "complex": k % 4 == 0}
     else:
